@@ -133,6 +133,8 @@ type Program struct {
 	// placeholders); Expect says whether cff must accept it.
 	Raw    string `json:"raw,omitempty"`
 	Expect string `json:"expect,omitempty"` // "accept" | "reject"
+	// Alone: the program is the only file with directives in its package (the generator numbers tasks per package)
+	Alone bool `json:"alone,omitempty"`
 }
 
 // JSON renders the program (stable).
@@ -258,6 +260,9 @@ func (p *Program) Key() string {
 	fs, _ := json.Marshal(p.F)
 	if string(fs) != "{}" {
 		b.WriteString(" feat=" + string(fs))
+	}
+	if p.Alone {
+		b.WriteString(" alone")
 	}
 	return b.String()
 }
